@@ -414,7 +414,13 @@ RunTaskExec ==
      /\ LabelN("RunTaskExec")
      /\ UNCHANGED <<durable, gh, cnt>>
 
-RetryBudgetLeft == (IF FixRetry THEN Cur.att ELSE Cur.att) + 1 < MaxAttempts
+(* handle_exception: retry while attempts + 1 < max_attempts.  `attempts` is what poll_one put on
+   the message = the ROW's delivery count.  The retry is a NEW row; the code pushes it with the
+   incremented count in the payload, but the row starts at attempts = 0 and the payload count is
+   dropped on deserialisation (known finding C14: the budget is never reached).  FixRetry = TRUE
+   models the intended design: the new row carries the count. *)
+RetryBudgetLeft == Cur.att + 1 < MaxAttempts
+RetryMsg(t) == [RunTaskDelayed(t) EXCEPT !.att = IF FixRetry THEN Cur.att ELSE 0]
 
 RunTaskResult ==
   /\ wk.pc = "rt_result"
@@ -442,7 +448,7 @@ RunTaskResult ==
                THEN /\ IF o = "transient"
                        THEN st' = Bump(st, s) /\ tk' = [Touch(tk, s) EXCEPT ![t].prog = @ + 1]
                        ELSE st' = st /\ tk' = tk
-                    /\ Commit(<<RunTaskDelayed(t)>>, FALSE)
+                    /\ Commit(<<RetryMsg(t)>>, FALSE)
                     /\ SetWk("hdone") /\ Label("RunTaskTransientRetry")
                     /\ UNCHANGED <<wf, dlq, claims, ledger, cnt>>
                ELSE /\ st' = Bump(st, s) /\ tk' = Touch(tk, s)
